@@ -22,11 +22,18 @@ uint32_t verif_param(uint32_t i) noexcept;
 }
 #define VERIF_STR2(x) #x
 #define VERIF_STR(x) VERIF_STR2(x)
-#define CHECK(c) verif_assert((c), #c " [line " VERIF_STR(__LINE__) "]")
-#define CHECKM(c, msg) verif_assert((c), msg " [line " VERIF_STR(__LINE__) "]")
+// nomerge: keep every assertion call site distinct in the IR (the message must
+// stay a literal so ir2c can name the CBMC property)
+#ifdef __clang__
+#define VERIF_NOMERGE [[clang::nomerge]]
+#else
+#define VERIF_NOMERGE
+#endif
+#define CHECK(c) VERIF_NOMERGE verif_assert((c), #c " [line " VERIF_STR(__LINE__) "]")
+#define CHECKM(c, msg) VERIF_NOMERGE verif_assert((c), msg " [line " VERIF_STR(__LINE__) "]")
 #define ASSUME(c) __CPROVER_assume(c)
 // reachability witness: must be reported FAILED by the solver, otherwise the
 // obligation is vacuous.  Ignored in the native build.
-#define WITNESS(label) verif_assert(false, "WITNESS " label)
+#define WITNESS(label) VERIF_NOMERGE verif_assert(false, "WITNESS " label)
 #define OBSERVE(x) verif_observe((uint64_t)(x))
 #endif
